@@ -8,6 +8,7 @@ def check(ctx):
     rep.floor("display tags on the all-miss path of dict_to_dis", n, 8)
     rxinfo = dis.check_regex(ctx, rep)
     dis.check_lookup_sources(ctx, rep, rxinfo)
+    dis.check_localiser_forwarded(ctx, rep)
     npush = dis.check_replacer_pushes(ctx, rep)
     nrk = dis.check_replacer_kinds(ctx, rep)
     rep.floor("replacer kind-dispatch obligations", nrk, 2)
